@@ -4,7 +4,7 @@
    buffer_length <= 16, bytes[read_bytes] with read_bytes < len, the two subtractions) are in
    range by construction of the loop, so the model is a total function into byte lists. *)
 From Coq Require Import List NArith Bool.
-From Mila Require Import Lib.Bytes Model.LZCore.
+From Mila Require Import Lib.Bytes Lib.Machine Model.LZCore.
 Import ListNotations.
 Local Open Scope N_scope.
 
@@ -27,3 +27,15 @@ Definition header10 (n : N) : list N :=
 
 Definition compress10 (x : list N) : list N :=
   emit_loop tok10 (header10 (lenN x)) (tokens 18 x).
+
+(* LZ10CompressionFormat::compress as it is after the repair of F21 (lz10.rs:16-20):
+     if bytes.len() > 0xFFFFFF { return Err(CompressionError::InputTooLarge(bytes.len(), "LZ10")) }
+   and then the code above.  [compress10] is the part after the guard; it is what the format theorems speak
+   about (for inputs the guard lets through), [compress10_o] is the function the library exports. *)
+(* bytes.len(), counted with an accumulator: the extracted guard must answer on a 16 MiB list without
+   recursing 2^24 frames deep (Proofs/LZFormat.v: lenN_tr x = lenN x) *)
+Fixpoint len_acc (l : list N) (acc : N) : N := match l with [] => acc | _ :: r => len_acc r (acc + 1) end.
+Definition lenN_tr (x : list N) : N := len_acc x 0.
+
+Definition compress10_o (x : list N) : outcome (list N) :=
+  if 0xFFFFFF <? lenN_tr x then Err ETooLarge else Ok (compress10 x).
